@@ -31,7 +31,7 @@ theorem copy_genname (env : PEnv) (md : Maildir) (flags : Option Bytes) (fuel co
   | succ fuel ih =>
     unfold genname
     simp only [bind_eq, pure_eq, call_bind]
-    generalize (decimalInt env.now ++ [46] ++ decimal env.pid ++ [95] ++ decimal (count + 1) ++ [46] ++ env.host ++
+    generalize (decimalInt env.now ++ [46] ++ decimal env.pid ++ [95] ++ decimal ((count + 1) % gennameWrap) ++ [46] ++ env.host ++
           flags.getD []) = nm
     split
     · exact h0
@@ -94,7 +94,7 @@ theorem copy_maildirWrite (env : PEnv) (md : Maildir) (ms : MsgSt) (tr : Trace) 
   split
   · exact ⟨h0, rfl⟩
   rename_i fl _
-  refine wp_bind_ext (copy_genname env md (some fl) 4096 _ _ h0) ?_
+  refine wp_bind_ext (copy_genname env md (some fl) gennameAttempts _ _ h0) ?_
   intro g L1 hg
   cases g with
   | none => exact ⟨hg, rfl⟩
@@ -168,7 +168,7 @@ theorem copy_maildirMove (env : PEnv) (s dst : Maildir) (ms : MsgSt) (tr : Trace
   split
   · exact ⟨h1, rfl⟩
   rename_i fl _
-  refine wp_bind_ext (copy_genname env dst (some fl) 4096 _ _ h1) ?_
+  refine wp_bind_ext (copy_genname env dst (some fl) gennameAttempts _ _ h1) ?_
   intro g L1 hg
   cases g with
   | none => exact ⟨hg, rfl⟩
